@@ -118,7 +118,8 @@ def fireTimeout (st : RepairSt) : RepairSt × Out :=
 def done (st : RepairSt) (r : Req) : RepairSt := { st with outstanding := st.outstanding.filter (· ≠ r) }
 
 /-- `handle_response` (with fix D4: the request stays outstanding until a response passed validation;
-    with fix D26: a repaired shred's last-slice flag is compared with the proven last slice index) -/
+    with fix D26: a repaired shred's last-slice flag is compared with the proven last slice index;
+    with fix D15b: a shred whose data/coding type does not fit its index is not a valid answer) -/
 def handleResponse (env : Nat → Content) (cap : Nat) (st : RepairSt) (store : Store) (resp : Resp) :
     RepairSt × Store × Out :=
   if resp.req ∉ st.outstanding then (st, store, {})
@@ -155,6 +156,9 @@ def handleResponse (env : Nat → Content) (cap : Nat) (st : RepairSt) (store : 
             if s.root ≠ root then (st, store, {})
             -- fix D26: the last-slice flag must agree with the proven last slice index
             else if s.isLast ≠ decide (lastGet st.lastSlices b = some slice) then (st, store, {})
+            -- fix D15b: a shred whose data/coding type does not fit its index would be dropped by the blockstore;
+            -- the request stays outstanding
+            else if !s.ty then (st, store, {})
             else if !sigOk then (st, store, {})
             else
               let st := done st r
